@@ -1012,6 +1012,16 @@ func (g *gctx) outerLoopIdiom() *Stmt {
 	// its own declared type); the body just runs Count times.
 	loop := &Stmt{K: SFor, Var: k, Count: count, Start: start, Outer: true}
 	g.loops = append(g.loops, loopVar{"_", hiddenLoop})
+	// A body that runs zero times leaves the constant tracking of every
+	// variable as it was before the loop.
+	type dynState struct {
+		v   *varInfo
+		dyn bool
+	}
+	var before []dynState
+	for _, nv := range g.visible() {
+		before = append(before, dynState{nv.v, nv.v.Dyn})
+	}
 	g.push()
 	nb := g.intn(1, 2, "olbody")
 	saved := g.pending
@@ -1022,6 +1032,11 @@ func (g *gctx) outerLoopIdiom() *Stmt {
 	}
 	g.pending = saved
 	g.pop()
+	if count == 0 {
+		for _, b := range before {
+			b.v.Dyn = b.dyn
+		}
+	}
 	g.loops = g.loops[:len(g.loops)-1]
 	g.pending = append(g.pending, loop)
 	T := *arr.v.T.E
